@@ -53,7 +53,8 @@ N == Len(cfg.times)
 T(k) == IF k = 0 THEN cfg.start ELSE cfg.times[k]     \* T(0) = start time; T(k) = k-th readout
 
 Pow2(k) == 2 ^ k
-Active(model, step) == (model.mask \div Pow2(step)) % 2 = 1
+\* mask: bit k set = active at step k (k < 30); -1 = active at every step
+Active(model, step) == model.mask = -1 \/ (step < 30 /\ (model.mask \div Pow2(step)) % 2 = 1)
 
 ValidSchedule(times, start) ==
   /\ Len(times) >= 1
@@ -95,10 +96,12 @@ Effect(model, b, ck) ==
          [b EXCEPT ![model.b] = model.base + ck.count]
     [] model.kind = "add" /\ Active(model, ck.count) ->
          [b EXCEPT ![model.b] = Val(b, model.b) + model.base + ck.count]
+    [] model.kind = "padd" /\ Active(model, ck.count) ->      \* charge added as positioned clusters
+         [b EXCEPT !["charge"] = Val(b, "charge") + model.base + ck.count]
     [] model.kind = "flux" ->                         \* rate x time step
          [b EXCEPT ![model.b] = Val(b, model.b) + model.base * ck.step]
-    [] model.kind = "conv" ->                         \* charge += q x photon
-         [b EXCEPT !["charge"] = Val(b, "charge") + model.base * Val(b, "photon")]
+    [] model.kind = "conv" ->                         \* charge += (base/2) x photon
+         [b EXCEPT !["charge"] = Val(b, "charge") + (model.base * Val(b, "photon")) \div 2]
     [] model.kind = "collect" ->                      \* pixel += charge
          [b EXCEPT !["pixel"] = Val(b, "pixel") + Val(b, "charge")]
     [] OTHER -> b
@@ -321,7 +324,7 @@ ConvFactor ==
   SumSeq([ j \in 1 .. Len(cfg.pipe[4]) |->
            IF cfg.pipe[4][j].enabled /\ cfg.pipe[4][j].kind = "conv" THEN cfg.pipe[4][j].base ELSE 0 ])
 
-PixelRate == RateOf("charge") + ConvFactor * RateOf("photon")
+PixelRate == RateOf("charge") + (ConvFactor * RateOf("photon")) \div 2
 
 C17_NonDestructive ==
   (pc = "done" /\ cfg.nd) => bucket["pixel"] = PixelRate * (cfg.times[N] - cfg.start)
